@@ -729,6 +729,23 @@ class Unit:
             edits.append(Edit(toks[seq[0]].start, e_start, ''))
             edits.append(Edit(toks[e_end_tok].end, toks[e_end_tok].end, '.iter_mut()' if is_mut else '.iter()', None, prio=-4))
             cnt('R6')
+        # R6i (stand-alone): the iterated expression is a shared reference variable `r: &Collection`: `for x in r` == `for x in r.iter()`
+        for o in opts:
+            mm = re.match(r'r6i:(\d+)$', o)
+            if not mm:
+                continue
+            n = int(mm.group(1))
+            if ('r5:%d' % n) in opts:
+                continue
+            if n >= len(loops) or loops[n]['kind'] != 'for' or loops[n]['in'] is None:
+                raise GenError('contract needs re-anchoring: R6i loop %d of %s is not a for loop' % (n, rec.selector))
+            L = loops[n]
+            e_end_tok = self.prev_sig(toks, L['body'], L['in'])
+            seq = self.next_sig(toks, L['in'] + 1, L['body'], 1)
+            if not seq or seq[0] != e_end_tok or toks[e_end_tok].kind != 'ident':
+                raise GenError('contract needs re-anchoring: R6i loop %d of %s does not iterate over a plain variable' % (n, rec.selector))
+            edits.append(Edit(toks[e_end_tok].end, toks[e_end_tok].end, '.iter()', None, prio=-4))
+            cnt('R6')
         # R5: desugar `for P in E { B }` (body contains `continue`) into the reference `loop { match it.next() .. }` form
         for o in opts:
             mm = re.match(r'r5:(\d+)$', o)
